@@ -46,3 +46,49 @@ package keyvalue
 //@   modifies *
 //@   callsite dbPutSource : s == old(s) && len(keys) == 3 + len(srcParams(s).Parts) && keys[0] == "staging:state" && keys[1] == "current" && keys[2] == "phase" &&
 //@     allSigKeys(keys, 3, len(srcParams(s).Parts))
+
+// ---------------------------------------------------------------------------
+// Creation and removal (C10, C11). kvput(k)/kvdel(k): a Put/Delete with key string k was issued (ghost sets kept by the
+// model of the sortedkv interfaces). Helpers that decode stored data or format peer keys are trusted frames.
+// ---------------------------------------------------------------------------
+
+// The key prefixes are constants of the package (checked against the package initialiser; nothing writes them: side check).
+//@ global prefix.Peers == "peers" && prefix.ChannelDB == "Chan:" && prefix.PeerDB == "Peer:" && prefix.SigKey == "staging:sig:"
+
+//@ func dbPut
+//@   trusted
+//@   requires db != nil
+//@   modifies ghost("kvput")
+//@   ensures result == nil ==> kvput(key)
+//@   ensures forall k string :: old(kvput(k)) ==> kvput(k)
+//@ func peerChannelKey
+//@   trusted
+//@ func (*PersistRestorer).paramsForChan
+//@   trusted
+//@   requires pr != nil
+//@   ensures len(result0.Parts) >= 0
+//@ func (*PersistRestorer).channelPeers
+//@   trusted
+//@   requires pr != nil
+
+// ChannelCreated writes every field of the channel: the source fields (current, index, params, phase, staged state, all
+// signature slots), the parent and the peers.
+//@ func (*PersistRestorer).ChannelCreated
+//@   requires pr != nil && s != nil
+//@   modifies *
+//@   callsite dbPutSource : len(keys) == 5 + len(srcParams(s).Parts) && keys[0] == "current" && keys[1] == "index" && keys[2] == "params" && keys[3] == "phase" &&
+//@     keys[4] == "staging:state" && allSigKeys(keys, 5, len(srcParams(s).Parts))
+//@   ensures result == nil ==> kvput("parent") && kvput("peers")
+//@   loop 1
+//@     invariant kvput("parent") && kvput("peers")
+
+// ChannelRemoved deletes every key that any persister method writes for the channel: nothing of a removed channel stays behind.
+//@ func (*PersistRestorer).ChannelRemoved
+//@   requires pr != nil
+//@   modifies *
+//@   ensures result == nil ==> kvdel("current") && kvdel("index") && kvdel("params") && kvdel("phase") && kvdel("staging:state") && kvdel("parent") && kvdel("peers")
+//@   ensures result == nil ==> exists n int :: n >= 0 && forall i int :: 0 <= i && i < n ==> kvdel(sigKeyStr(i, n))
+//@   loop 1
+//@     invariant forall k int :: 0 <= k && k < $i ==> kvdel(keys[k])
+//@   loop 2
+//@     invariant forall k int :: 0 <= k && k < len(keys) ==> kvdel(keys[k])
